@@ -87,6 +87,20 @@ def batches_respect_graph(spec, batches):
     return None
 
 
+def separate_interpreters_batch(ctx):
+    """a few programs with symbolic (string / tuple / frozenset / class / bytes) tags partitioned and
+    tag-numbered with every rank in its OWN interpreter (different PYTHONHASHSEEDs; collective
+    payloads really cross process boundaries pickled) and with all ranks in one interpreter: every
+    rank gets a partition, the summaries and tag tables agree byte for byte (C17 sweeps this broadly)"""
+    from . import c17_dist
+    n = 40 if ctx.thorough else 5
+    specs = c17_dist.programs(ctx.seed, n, 1)[:n]
+    for sp in specs:
+        sp.pop("c17_codegen", None)
+    c17_dist.run(ctx, specs=specs, group_seeds=[[11, 12, 13, 14]], thread_seeds=[0],
+                 batch="ranks-in-separate-interpreters")
+
+
 def dependency_mapper_batch(ctx):
     """the dependency analyses partition.py relies on (DependencyMapper, SubsetDependencyMapper,
     DirectPredecessorsGetter, collect_materialized_nodes) against a reflective closure over
@@ -197,6 +211,7 @@ def run(ctx: common.Ctx):
     ]
     ctx.lean_obligations("PtProofs.C09", THEOREMS)
     dependency_mapper_batch(ctx)
+    separate_interpreters_batch(ctx)
     n = 12000 if ctx.thorough else 600
     tasks = [{"seed": ctx.seed, "index": i, "profile": "default"} for i in range(n)]
     tasks += [{"seed": ctx.seed, "index": i, "profile": "small"} for i in range(n // 3)]
